@@ -146,8 +146,6 @@ Definition any_fails (rs : list (list resp)) : bool :=
   existsb (fun s => is_err (sfin s)) rs.
 
 (* one row per distinct key, ascending, carrying the fold of that key's values *)
-Definition kvals (k : Z) (all : list (Z * Z)) : list Z :=
-  map snd (filter (fun r => fst r =? k) all).
 Definition reduce_check (comb : Z -> Z -> Z) (all out : list (Z * Z)) : bool :=
   strict_keysb out
   && forallb (fun r => memZ (fst r) (map fst out)) all
